@@ -80,8 +80,8 @@ check_state(MB_T s, const model *m)
         return;
     }
     CHECK("capacity never below length", F(get_size)(s) >= F(get_len)(s));
-    CBMC_ONLY(CHECK("allocation at least as large as reported capacity", (IDX_T) __CPROVER_OBJECT_SIZE(s->buff) >= s->size));
-    CBMC_ONLY(CHECK("buffer pointer is the start of its allocation", __CPROVER_POINTER_OFFSET(s->buff) == 0));
+    CHECK("allocation at least as large as reported capacity", (IDX_T) OBJ_SIZE(s->buff) >= s->size);
+    CHECK("buffer pointer is the start of its allocation", IS_ALLOC_START(s->buff));
     for (i = 0; i < m->len && i < MAXT; i++) {
         CHECK("bytes equal the ideal sequence", s->buff[i] == m->t[i]);
     }
